@@ -28,6 +28,7 @@ import (
 	"k8s.io/apimachinery/pkg/util/sets"
 	ksf "k8s.io/kube-scheduler/framework"
 
+	commonconstants "github.com/NVIDIA/KAI-scheduler/pkg/common/constants"
 	"github.com/NVIDIA/KAI-scheduler/pkg/scheduler/api"
 	"github.com/NVIDIA/KAI-scheduler/pkg/scheduler/api/common_info"
 	"github.com/NVIDIA/KAI-scheduler/pkg/scheduler/api/node_info"
@@ -305,23 +306,34 @@ func (pp *predicatesPlugin) willCreateNewGpuGroup(task *pod_info.PodInfo, node *
 	gpuForSharingImmediate := gpu_sharing.GetNodePreferableGpuForSharing(fittingGPUs, node, task, false)
 
 	if gpuForSharingImmediate != nil && !gpuForSharingImmediate.IsReleasing {
-		return containsNewGpuGroup(gpuForSharingImmediate.Groups)
+		return containsNewGpuGroup(node, gpuForSharingImmediate.Groups)
 	}
 
 	gpuForSharingPipelined := gpu_sharing.GetNodePreferableGpuForSharing(fittingGPUs, node, task, true)
 
 	if gpuForSharingPipelined != nil {
-		return containsNewGpuGroup(gpuForSharingPipelined.Groups)
+		return containsNewGpuGroup(node, gpuForSharingPipelined.Groups)
 	}
 
 	// No GPU assignment possible - conservatively assume new group would be needed
 	return true
 }
 
-// containsNewGpuGroup checks if any of the GPU groups is a newly created one (UUID format).
-func containsNewGpuGroup(groups []string) bool {
+// containsNewGpuGroup checks if any of the GPU groups is a newly created one, which still needs a reservation pod.
+func containsNewGpuGroup(node *node_info.NodeInfo, groups []string) bool {
 	for _, gpuGroup := range groups {
-		if isNewGpuGroup(gpuGroup) {
+		if isNewGpuGroup(gpuGroup) && !hasReservationPod(node, gpuGroup) {
+			return true
+		}
+	}
+	return false
+}
+
+// hasReservationPod tells whether the reservation pod of the GPU group already runs on the node (and holds its pod
+// slot). Groups of a cluster have UUID names like the ones created in this session, so the name does not tell.
+func hasReservationPod(node *node_info.NodeInfo, gpuGroup string) bool {
+	for _, podInfo := range node.PodInfos {
+		if pod_info.IsResourceReservationTask(podInfo.Pod) && podInfo.Pod.Labels[commonconstants.GPUGroup] == gpuGroup {
 			return true
 		}
 	}
